@@ -1186,8 +1186,9 @@ class Engine(object):
                                 info={"site": self.site(fr, node)})
             if cid is None or cid not in st.private:
                 self.escape(st, t)
+            old_t = st.get(self.heap_key(cname, name), oid)
             st.put(self.heap_key(cname, name), oid, t)
-            st.trace.append(Event("write", recv=oid, meth=name, args=[t], site=self.site(fr, node), held=list(st.held), depth=fr.depth))
+            st.trace.append(Event("write", recv=oid, meth=name, args=[t], site=self.site(fr, node), held=list(st.held), depth=fr.depth, extra={"old": old_t}))
             hook = self.cfg.ghost_hooks.get(("write", name))
             if hook:
                 hook(self, st, fr, o, v)
